@@ -15,7 +15,7 @@ MODULES_UNIFY = ["RotoV.Lemmas.Unify", "RotoV.Model.Unify", "RotoV.Model.UnifyBa
 # the parser: model over the proved lexer model, parse_total / parse_error_spans_ok, and the
 # generated decision tables + call skeletons of src/parser/*.rs pinned to what the model was written against
 PROPS_PARSE = "RotoV.Props.C06Parse"
-MODULES_PARSE = ["RotoV.Model.ParseBase", "RotoV.Model.Parse", "RotoV.Lemmas.ParseLexText", "RotoV.Lemmas.ParseBase", "RotoV.Lemmas.ParsePaths",
+MODULES_PARSE = ["RotoV.Model.ParseBase", "RotoV.Model.Parse", "RotoV.Lemmas.ParseLexText", "RotoV.Lemmas.ParseFText", "RotoV.Lemmas.ParseBase", "RotoV.Lemmas.ParsePaths",
                  "RotoV.Lemmas.ParseTypes", "RotoV.Lemmas.ParseExpr", "RotoV.Lemmas.ParseTop"]
 PROPS_PARSE_SOURCE = "RotoV.Props.C06ParseSource"
 
